@@ -1,6 +1,7 @@
 package checks
 
 import (
+	"encoding/json"
 	"fmt"
 	"go/ast"
 	"go/parser"
@@ -12,6 +13,8 @@ import (
 	"sort"
 	"strconv"
 	"strings"
+	"time"
+	"verif/tlc"
 
 	"verif/ev"
 	"verif/goosegen"
@@ -356,6 +359,7 @@ func C02(c *ev.Ctx) {
 		gs = append(gs, g)
 	}
 	sort.Strings(gs)
+	c02Schedules(c)
 	lkTried, lkExec := c02Lookalikes(c)
 	// out-of-subset constructs that only show in concurrent programs (go with arguments, TryLock, RWMutex, defer of an
 	// unlock, re-assigned captured variables, ...): rejected, or explored over all interleavings like C03's programs
@@ -395,3 +399,66 @@ func firstLines(s string, n int) string {
 }
 
 var _ = exec.Command
+
+// c02Schedules: a rejected package stays rejected (same error list as when it is translated alone) under every order in
+// which the per-package workers of one invocation reach their two hook points (schedules from Workers.tla, forced on
+// the real TranslatePackages): an error must not get lost because another package finished at the wrong moment.
+func c02Schedules(c *ev.Ctx) {
+	dir, err := c.SpecDir("spec-workers-c02", "translator")
+	if err != nil {
+		c.Inconclusive("copy specs: %v", err)
+		return
+	}
+	wr := tlc.Run{Dir: dir, Module: "Workers", Workers: 1, Timeout: 5 * time.Minute}.Do()
+	c.AddTLC(wr)
+	var schedules [][][2]string
+	for _, p := range wr.Prints {
+		var sc [][2]string
+		if json.Unmarshal([]byte(p), &sc) == nil {
+			schedules = append(schedules, sc)
+		}
+	}
+	if len(schedules) != 90 {
+		c.Inconclusive("expected 90 worker schedules from Workers.tla, got %d", len(schedules))
+		return
+	}
+	root := filepath.Join(c.Scratch, "c02sched")
+	if err := c06Module(c, root); err != nil {
+		c.Inconclusive("module: %v", err)
+		return
+	}
+	alone := map[string]string{}
+	for _, p := range []string{"failing", "failmulti"} {
+		res, err := translateOnce(root, []string{p})
+		if err != nil || len(res) != 1 || res[0].errs == "" {
+			c.Inconclusive("reference translation of %s: %v %v", p, err, res)
+			return
+		}
+		alone[p] = res[0].errs
+	}
+	n := 0
+	step := c.Pick(3, 1)
+	for ti, tri := range [][]string{{"failing", "plain", "geom"}, {"plain", "failmulti", "failing"}} {
+		for si := (ti + int(c.Seed)) % step; si < len(schedules); si += step {
+			res, err := forcedTranslate(root, tri, schedules[si])
+			if err != nil {
+				if strings.Contains(err.Error(), "gate") {
+					c.Inconclusive("forced schedule: %v", err)
+				}
+				continue // a failing run is C06/C07's business
+			}
+			n++
+			for _, r := range res {
+				if want, bad := alone[r.pkg]; bad && r.errs != want {
+					what := "reports a different error list"
+					if r.errs == "" {
+						what = "is reported as translated WITHOUT ANY ERROR (its rejected declarations are silently missing from the output)"
+					}
+					c.Violation("c02.rejected-package-accepted-under-schedule", fmt.Sprintf("TranslatePackages(%v) with the workers forced through the schedule %v: package %s, which is rejected with conversion errors when translated alone, %s", tri, schedules[si], r.pkg, what), nil)
+					return
+				}
+			}
+		}
+	}
+	c.Set("forced_worker_schedules", n)
+}
